@@ -414,6 +414,9 @@ structure ReqIn where
   userExpect : Bool := false
   /-- `connector.force_close` -/
   connForceClose : Bool := false
+  /-- the payload class implements `write_with_length` (all but `MultipartWriter`, whose
+  inherited default ignores the limit and writes everything) -/
+  limited : Bool := true
 deriving Repr
 
 inductive QErr where
@@ -511,10 +514,10 @@ def reqPrep (x : ReqIn) : Except QErr ReqOut :=
   | .ok o => .ok { o with conn := reqConn x }
 
 /-- number of body bytes `write_with_length` hands to the writer -/
-def reqSent (_x : ReqIn) (o : ReqOut) (actual : Nat) : Nat :=
+def reqSent (x : ReqIn) (o : ReqOut) (actual : Nat) : Nat :=
   if !o.writes then 0 else
   match o.limit with
-  | some n => min n actual
+  | some n => if x.limited then min n actual else actual
   | none => actual
 
 /-- the interpreted header block of the request as the server parser sees it -/
